@@ -512,3 +512,89 @@ pub proof fn lemma_slice_empty(l: Seq<RetainedMessage>, lo: int, hi: int)
     lemma_keep_window(l, off_in(lo, hi), 0, 0);
     assert(l.subrange(0, 0) =~= Seq::<RetainedMessage>::empty());
 }
+
+// ---- the partition-level polls ----
+pub proof fn lemma_starts_bounded(p: &Partition)
+    requires read_wf(p), p.segments@.len() > 0,
+    ensures forall|j: int| 0 <= j < p.segments@.len() ==> (#[trigger] p.segments@[j]).start_offset <= next_offset(p),
+{
+    let segs = p.segments@; let n = segs.len() as int;
+    assert forall|j: int| 0 <= j < n implies (#[trigger] segs[j]).start_offset <= next_offset(p) by {
+        if j < n - 1 { lemma_sorted_ij(segs, j, n - 1); }
+    }
+}
+// everything get_messages_by_offset needs to know once filter_segments_by_offsets has returned segments lo..hi
+pub proof fn lemma_by_offset(p: &Partition, lo: int, hi: int, start: int, count: int, end: int)
+    requires
+        read_wf(p), p.segments@.len() > 0, 1 <= count <= u32::MAX, start <= p.current_offset,
+        end == (if start + count - 1 > last_seg(p).current_offset { last_seg(p).current_offset as int } else { start + count - 1 }),
+        hit_range(p.segments@, start, end, lo, hi),
+        (p.segments@[0].start_offset <= start) ==> lo < hi && p.segments@[lo].start_offset <= start,
+    ensures ({
+        let d = p.segments@.subrange(lo, hi); let dl = log_upto(d, hi - lo);
+        &&& segs_wf(d)
+        &&& forall|i: int| 0 <= i < d.len() ==> (#[trigger] d[i]).start_offset + count <= u64::MAX
+        &&& start + count <= u64::MAX
+        &&& lo == hi ==> start < first_retained(p) && earliest_run(log(p), Seq::<RetainedMessage>::empty(), start, count)
+        &&& lo < hi ==> {
+                let m = max_int(start, d[0].start_offset as int);
+                &&& start >= first_retained(p) ==> slice_of(dl, m, m + count - 1) == slice_of(log(p), start, start + count - 1)
+                &&& start < first_retained(p) ==> earliest_run(log(p), slice_of(dl, m, m + count - 1), start, count)
+                &&& hi - lo == 1 ==> dl == seg_all(&d[0])
+                &&& contig(seg_all(&d[0]), d[0].start_offset as int)
+            }
+    }),
+{
+    let segs = p.segments@;
+    let d = segs.subrange(lo, hi);
+    lemma_sub_wf(segs, lo, hi);
+    lemma_starts_bounded(p);
+    assert forall|i: int| 0 <= i < d.len() implies (#[trigger] d[i]).start_offset + count <= u64::MAX by { assert(d[i] == segs[lo + i]); }
+    if lo == hi {
+        assert forall|i: int| 0 <= i < segs.len() implies !seg_hits(segs, i, start, end) by {}
+        lemma_no_hit(p, start, count, end);
+        assert(log(p).subrange(0, 0) =~= Seq::<RetainedMessage>::empty());
+    } else {
+        lemma_segment_path(p, lo, hi, start, count, end);
+        if hi - lo == 1 { lemma_log_one(d); }
+        assert(contig(seg_all(&d[0]), d[0].start_offset as int));
+    }
+}
+// first poll on a log that still starts at offset 0
+pub proof fn lemma_first(p: &Partition, count: int)
+    requires read_wf(p), count >= 1, first_retained(p) == 0,
+    ensures slice_of(log(p), 0, count - 1) == take(log(p), count),
+{
+    if p.segments@.len() > 0 {
+        lemma_log_facts(p);
+        lemma_slice_window(log(p), 0, 0, count - 1);
+    } else {
+        assert(take(log(p), count) =~= Seq::<RetainedMessage>::empty());
+    }
+}
+// last poll: requested = min(count, current_offset + 1), start = current_offset + 1 - requested
+pub proof fn lemma_last(p: &Partition, count: int, requested: int, start: int)
+    requires
+        read_wf(p), count >= 1,
+        requested == (if count > p.current_offset + 1 { p.current_offset + 1 } else { count }),
+        start == 1 + p.current_offset - requested,
+    ensures
+        start >= first_retained(p) ==> slice_of(log(p), start, start + requested - 1) == last_n(log(p), count),
+        start < first_retained(p) ==> forall|r: Seq<RetainedMessage>| #[trigger] earliest_run(log(p), r, start, requested) ==> r == last_n(log(p), count),
+{
+    let l = log(p); let f = first_retained(p);
+    if p.segments@.len() > 0 {
+        lemma_log_facts(p);
+        lemma_slice_window(l, f, start, start + requested - 1);
+        if start >= f {
+            assert(window(l, f, start, start + requested - 1) =~= last_n(l, count));
+        } else {
+            assert forall|r: Seq<RetainedMessage>| #[trigger] earliest_run(l, r, start, requested) implies r == last_n(l, count) by {
+                assert(r =~= l);
+            }
+        }
+    } else {
+        lemma_slice_empty(l, 1, 0);
+        assert(slice_of(l, start, start + requested - 1) =~= Seq::<RetainedMessage>::empty()) by { reveal_with_fuel(seq_keep, 2); }
+    }
+}
